@@ -7,8 +7,10 @@ package execext
 // RunCommand runs a user command in the shell interpreter and returns after the command has exited
 // (assumed: mvdan/sh). What the user's command does to the file system is outside every property; it does
 // not touch Task's in-memory data.
+// Commands always run with errexit ("e" is appended to whatever set: options were given), so a failing
+// statement inside a multi-line command fails the command.
 //@ func RunCommand
-//@   trusted
 //@   blocks
+//@   loop 1 invariant len(opts.PosixOpts) >= 1 && opts.PosixOpts[len(opts.PosixOpts) - 1] == "e"   [C03]
 //@   modifies heap
 //@   preserves $RUNDATA
